@@ -1,18 +1,29 @@
 #!/bin/bash
 # repo_fix.sh <patch file> <commit message file>
-# Apply a minimal repair to /repo under a lock, run the unedited test suite, commit iff the baseline
-# result (815 passed, the same 12 baseline failures) is unchanged; otherwise revert.
+# Trial a minimal repair in a scratch worktree of /repo's HEAD (so concurrent scratch edits in /repo
+# neither disturb nor are disturbed by the suite run), run the unedited test suite there, and commit
+# the patch to /repo iff the baseline result (815 passed, the same 12 baseline failures) is unchanged.
 set -u
-patch="$1"; msgfile="$2"
+patch="$(readlink -f "$1")"; msgfile="$(readlink -f "$2")"
 exec 9>/tmp/.xl_repo_fix.lock; flock 9
-cd /repo || exit 2
 if ! head -1 "$msgfile" | grep -q '^fix: '; then echo "commit message must start with 'fix: '"; exit 2; fi
-if [ -n "$(git status --porcelain)" ]; then echo "/repo working tree is not clean"; git status --short; exit 2; fi
-git apply --recount "$patch" || { echo "patch does not apply"; exit 3; }
-out=$(/venv/bin/python -m pytest -q -p no:cacheprovider tests -n 8 2>&1 | tail -1)
+wt=$(mktemp -d /tmp/xlfix.XXXXXX); rmdir "$wt"
+git -C /repo worktree add -q --detach "$wt" HEAD || exit 2
+cleanup() { git -C /repo worktree remove --force "$wt" 2>/dev/null; rm -rf "$wt"; }
+trap cleanup EXIT
+cd "$wt" || exit 2
+git apply --recount "$patch" || { echo "patch does not apply to HEAD"; exit 3; }
+out=$(PYTHONPATH="$wt" /venv/bin/python -m pytest -q -p no:cacheprovider tests -n 8 2>&1 | tail -1)
 echo "$out"
-if echo "$out" | grep -q "12 failed, 815 passed"; then
-  git commit -qa -F "$msgfile" && git log --oneline | head -1
-else
-  echo "SUITE RESULT CHANGED - reverting"; git checkout -- . ; exit 4
+if ! echo "$out" | grep -q "12 failed, 815 passed"; then
+  echo "SUITE RESULT CHANGED - not committed"
+  PYTHONPATH="$wt" /venv/bin/python -m pytest -q -p no:cacheprovider tests -n 8 2>&1 | grep ^FAILED | grep -v "SUMIF\|ArrayTest\|countifs_test\|sumifs_test" | head
+  exit 4
 fi
+files=$(git diff --name-only)
+cd /repo || exit 2
+for f in $files; do
+  if [ -n "$(git status --porcelain -- "$f")" ]; then echo "/repo: $f has uncommitted changes - restore it first"; exit 2; fi
+done
+git apply --recount "$patch" || { echo "patch does not apply to /repo"; exit 3; }
+git commit -q -F "$msgfile" -- $files && git log --oneline | head -1
